@@ -3,6 +3,7 @@ package mon
 import (
 	"fmt"
 	"math/big"
+	"time"
 
 	markettypes "github.com/regen-network/regen-ledger/x/ecocredit/v3/marketplace/types/v1"
 
@@ -80,12 +81,37 @@ func (m *C03) OnStep(_ explore.Ghost, st *explore.Step) []V {
 	sellerDenom := map[string]map[string]bool{}
 	duePay := map[string]map[string]*big.Rat{} // seller -> ask denom -> exact payment owed
 	dueFills := map[string]map[string]int64{}
+	// the exception for fills is about the order AS THE SELLER SIGNED IT: what Sell / UpdateSellOrders
+	// store must be what the seller's message says
+	if st.Act.Kind == explore.ActMsg {
+		var ids []uint64
+		switch msg := st.Res.Msg.(type) {
+		case *markettypes.MsgSell:
+			if r, ok := st.Res.Resp.(*markettypes.MsgSellResponse); ok {
+				ids = r.SellOrderIds
+			}
+		case *markettypes.MsgUpdateSellOrders:
+			for _, u := range msg.Updates {
+				ids = append(ids, u.SellOrderId)
+			}
+		}
+		if ids != nil {
+			for _, d := range ordersAsRequested(st, ids) {
+				out = append(out, V{Kind: "C03/order-differs-from-what-the-seller-signed", Detail: d})
+			}
+		}
+	}
 	if bd, ok := st.Res.Msg.(*markettypes.MsgBuyDirect); ok && st.Act.Kind == explore.ActMsg {
 		// quantities may refer to the same order several times
 		for _, o := range bd.Orders {
 			so := st.Pre.Order(o.SellOrderId)
 			if so == nil {
 				continue
+			}
+			// an offer that has lapsed is no offer: taking the seller's escrowed credits then is not a fill
+			if e, has := expiry(so); has && !e.After(st.Pre.Time) {
+				out = append(out, V{Kind: "C03/fill-of-expired-order",
+					Detail: fmt.Sprintf("%s filled order %d of %s which expired at %s (block time %s)", st.Act.Label, so.Id, addrStr(so.Seller), e.Format(time.RFC3339Nano), st.Pre.Time.Format(time.RFC3339Nano))})
 			}
 			k := abKey{addrStr(so.Seller), so.BatchKey}
 			if allowed[k] == nil {
